@@ -8,11 +8,11 @@ from __future__ import annotations
 
 import ast
 
-from ..astutil import ancestors, calls_in, dotted, enclosing_stmt, is_within, src, walk_local
+from ..astutil import deref, ancestors, calls_in, dotted, enclosing_stmt, is_within, src, walk_local
 from ..cfg import cfg_of
 from ..loader import AnalysisError
 from ..terms import Evaluator, alts, contains, find, show, walk
-from .common import evaluate, func_label, loc, nested_by_role, repo_cls, self_calls
+from .common import stream_producers, evaluate, func_label, loc, nested_by_role, repo_cls, self_calls
 
 EXPLANATION = (
     'Provenance of the list of files that is streamed (a uniqueness-establishing operation on the flattened, resolved paths), pairing of every yield of the stream '
@@ -56,7 +56,7 @@ def r1_unique(ctx):
 
 
 def _stream_producers(snap):
-    return [p for p in snap.nested.values() if p.is_generator and any(isinstance(n, ast.Call) and isinstance(n.func, ast.Attribute) and n.func.attr == 'read' for n in walk_local(p.node))]
+    return stream_producers(snap)
 
 
 def r2_accounting(ctx, p):
@@ -674,6 +674,49 @@ def r3b_chunk_record_fresh(ctx, rule='C01.R3'):
                 f'every chunk record handed to the workers is built by the record constructor in this iteration with all per-occurrence fields (counter, stream offsets, index, location, contents)',
                 f'the record handed to the workers (`{nm}`) is not freshly constructed with all per-occurrence fields for every occurrence (e.g. a cached record with only the offsets replaced): a repeated chunk keeps a stale counter / offsets and files are assembled in the wrong order',
             )
+            # ... and every value that goes into the record was computed for THIS chunk (no value left over from an earlier iteration)
+            if ok:
+                from .shared import values_fresh_in_iteration
+
+                ctor = defs[0]
+                loops = [a for a in ancestors(ctor) if isinstance(a, (ast.For, ast.AsyncFor, ast.While)) and any(x is a for x in ast.walk(f.node))]
+                if loops:
+                    names = {x.id for k in ctor.value.keywords for x in ast.walk(k.value) if isinstance(x, ast.Name) and isinstance(x.ctx, ast.Load)} | {x.id for a_ in ctor.value.args for x in ast.walk(a_) if isinstance(x, ast.Name)}
+                    values_fresh_in_iteration(ctx, rule, f, loops[0], ctor, names - {'self'}, 'chunk producer')
+
+
+def r1b_traversal_complete(ctx):
+    """utils.fs.iterative_scandir reports every regular file under the start directory: whether an entry is descended
+    into / yielded depends on the entry's own kind only, never on traversal state (visited sets, counters, names)."""
+    corpus = ctx.corpus
+    f = corpus.module('fs').functions.get('iterative_scandir')
+    if f is None:
+        raise AnalysisError('C01.R1: utils.fs.iterative_scandir missing')
+    ctx.analysed(f)
+    params = {a.arg for a in f.node.args.posonlyargs + f.node.args.args + f.node.args.kwonlyargs}
+    loops = [l for l in walk_local(f.node) if isinstance(l, ast.For) and any(isinstance(c, ast.Call) and (dotted(c.func) or '').endswith('scandir') for c in ast.walk(deref(f.node, l.iter))) or (isinstance(l, ast.For) and isinstance(l.iter, ast.Name) and any(isinstance(w, ast.With) and any(isinstance(it.optional_vars, ast.Name) and it.optional_vars.id == l.iter.id and any(isinstance(c, ast.Call) and (dotted(c.func) or '').endswith('scandir') for c in ast.walk(it.context_expr)) for it in w.items) for w in walk_local(f.node)))]
+    ctx.floor('C01.R1', 'loop over os.scandir entries in iterative_scandir', len(loops))
+    for l in loops:
+        evar = l.target.id if isinstance(l.target, ast.Name) else None
+        bad = []
+        for i in walk_local(f.node):
+            if isinstance(i, ast.If):
+                names = {n.id for n in ast.walk(i.test) if isinstance(n, ast.Name)}
+                calls = [c for c in ast.walk(i.test) if isinstance(c, ast.Call)]
+                ok_calls = all(isinstance(c.func, ast.Attribute) and c.func.attr in ('is_dir', 'is_file', 'is_symlink') and isinstance(c.func.value, ast.Name) and c.func.value.id == evar for c in calls)
+                if not (names <= ({evar} | params) and ok_calls):
+                    bad.append(i)
+        ctx.check(
+            not bad,
+            'C01.R1',
+            f'{func_label(f)}|traversal-depends-on-entry-kind-only',
+            loc(f, bad[0]) if bad else loc(f, l),
+            'iterative_scandir: whether an entry is descended into or reported depends only on the entry being a directory / a file',
+            f'iterative_scandir: `{src(bad[0].test, 60) if bad else ""}` makes the traversal depend on more than the kind of the entry (e.g. a visited set): '
+            'a directory that is reachable under two names is scanned under one of them only and the files under the other name are neither recorded nor restored',
+        )
+        skips = [n for n in walk_local(l) if isinstance(n, (ast.Break, ast.Return))]
+        ctx.check(not skips, 'C01.R1', f'{func_label(f)}|traversal-no-early-exit', loc(f, skips[0]) if skips else loc(f, l), 'iterative_scandir: the entry loop has no early exit', 'iterative_scandir: the entry loop can stop early: later entries are never reported')
 
 
 def r11_serialization(ctx):
@@ -684,7 +727,11 @@ def r11_serialization(ctx):
 
 
 def run(ctx):
+    from .shared import file_digest_covers_stream
+
+    file_digest_covers_stream(ctx, 'C01.R2')
     r11_serialization(ctx)
+    r1b_traversal_complete(ctx)
     r3b_chunk_record_fresh(ctx)
     p = r1_unique(ctx)
     r2_accounting(ctx, p)
@@ -698,3 +745,6 @@ def run(ctx):
     from .c02 import r8_skip_upload_only_on_backend_answer
 
     r8_skip_upload_only_on_backend_answer(ctx, rule='C01.R10')
+    from .c09 import r5b_completion_flag
+
+    r5b_completion_flag(ctx, 'C01.R10')
